@@ -208,8 +208,12 @@ class Flt(Engine):
                 if k == 'c':   # repeat of what was just written: inside the 64 KiB match window, or one block back
                     far = [B, max(1, B - 1)] if not near else []
                     out.append('c%dx%d' % (rng.choice([16384, 65536, 1, 4096, 16384, 32768] + far), ln))
+                elif k == 'C':  # repeat of the segment before the previous one (same length as those)
+                    out.append('c%dx%d' % (2 * B, B))
                 elif k == 'h':
                     out.append('%s%d' % (rng.choice('tr'), max(1, B // 2)))
+                elif k in 'TR':  # exactly one block
+                    out.append('%s%d' % (k.lower(), B))
                 else:
                     out.append('%s%d' % (k, ln))
             return 'segs:%d:%s' % (rng.randrange(1 << 30), ','.join(out))
@@ -229,10 +233,15 @@ class Flt(Engine):
                  ('xz', ['xz:compression-level=0'], 262144), ('xz', ['xz:threads=2', 'xz:compression-level=1'], 131072),
                  ('lzma', ['lzma:compression-level=0'], 262144), ('lzip', ['lzip:compression-level=0'], 65536),
                  ('gzip', [], 32768), ('gzip', ['gzip:compression-level=1'], 65536), ('compress', [], 10000), ('compress', [], 65536)]
-        CORE = ['trc', 'zrc', 'trcrc', 'htrc', 'trct']   # compressible, incompressible, repeat of the incompressible part
+        # every structural configuration gets, deterministically, both core families —
+        #   A: compressible, incompressible, repeat of the incompressible part (inside the match window)
+        #   B: text block, incompressible block, repeat of the text block, a variation of it
+        # — and one free combination
+        CORE_A = ['trc', 'zrc', 'trcrc', 'htrc', 'trct']
         for i, (f, o, B) in enumerate(cfgs if tier == 'quick' else cfgs * 6):
-            # every structural configuration gets one case of the core family and one free combination
-            for t, near in ((CORE[(i + rng.randrange(len(CORE))) % len(CORE)], True), (rng.choice(TEMPL), False)):
+            fams = [(CORE_A[(i + rng.randrange(len(CORE_A))) % len(CORE_A)], True),
+                    (rng.choice(['TRCt', 'TRCtc', 'hTRCt', 'TRtC']), True), (rng.choice(TEMPL), False)]
+            for t, near in fams:
                 yield Case(f'blocks-{f}', ['rt %s %s %s %s -/1 %d %s' % (
                     f, ';'.join(o) or '-', segs(B, t, near), rng.choice(['all', 'c10000', 'c65537', 'c4096']),
                     rng.choice([10240, 65536, 512]), rng.choice(['exact', 'exact', 'all']))])
@@ -258,6 +267,44 @@ class Flt(Engine):
                 yield Case(f'mm-{f}', ['mm %s %s %s %s %s %d %s' % (
                     f, ';'.join(gen_opts(rng, f)) or '-', pa, ';'.join(gen_opts(rng, f)) or '-', pb,
                     rng.choice([1, 7, 512, 10240]), rng.choice(['exact', 'all']))])
+        # 4a. members written with DIFFERENT option sets: all ordered pairs of each filter's structural
+        #     option sets (plus a few triples), payloads of several blocks per member
+        def member(B):
+            return segs(B, rng.choice(['tr', 'trc', 'rt', 'TRC', 'ht', 'r', 't']), True)
+        lz4sets = [(['lz4:block-size=%d' % b] + ([dep] if dep else []), 65536 << (2 * (b - 4)))
+                   for b in (4, 5) for dep in ('', 'lz4:block-dependence')]
+        lz4big = [(['lz4:block-size=%d' % b] + ([dep] if dep else []), 131072) for b in (6, 7) for dep in ('', 'lz4:block-dependence')]
+        def ck():
+            return rng.choice([[], [], ['lz4:!stream-checksum'], ['lz4:block-checksum'], ['lz4:compression-level=9']])
+        msets = {
+            'lz4': lz4sets,
+            'gzip': [([], 32768), (['gzip:compression-level=0'], 65536), (['gzip:compression-level=9', 'gzip:!timestamp'], 32768)],
+            'bzip2': [(['bzip2:compression-level=1'], 100000), (['bzip2:compression-level=9'], 100000), ([], 50000)],
+            'xz': [(['xz:compression-level=0'], 65536), (['xz:compression-level=6'], 65536), (['xz:threads=2', 'xz:compression-level=1'], 131072)],
+            'lzip': [(['lzip:compression-level=0'], 65536), (['lzip:compression-level=6'], 65536)],
+            'zstd': [([], 131072), (['zstd:compression-level=1', 'zstd:max-frame-in=131073'], 131072), (['zstd:long=17', 'zstd:compression-level=19'], 65536),
+                     (['zstd:frame-per-file', 'zstd:min-frame-in=1'], 131072), (['zstd:threads=2'], 131072)],
+        }
+        for f, sets in msets.items():
+            pairs = [(a, b) for a in sets for b in sets]
+            if f == 'zstd' and tier == 'quick':
+                pairs = rng.sample(pairs, 12)
+            for (oa, Ba), (ob, Bb) in pairs:
+                xa, xb = (ck(), ck()) if f == 'lz4' else ([], [])
+                yield Case(f'mmpair-{f}', ['mmn %s %d %s %s %s %s %s' % (
+                    f, rng.choice([512, 10240, 65536]), rng.choice(['exact', 'exact', 'all']),
+                    ';'.join(oa + xa) or '-', member(Ba), ';'.join(ob + xb) or '-', member(Bb))])
+        for (oa, Ba) in lz4big:          # same maximum block size 6 / 7, independent vs dependent, both orders
+            for (ob, Bb) in lz4big:
+                if oa[0] == ob[0] and oa != ob:
+                    yield Case('mmpair-lz4', ['mmn lz4 65536 exact %s %s %s %s' % (';'.join(oa), member(Ba), ';'.join(ob), member(Bb))])
+        for f, sets in msets.items():    # triples, an empty member now and then
+            for _ in range(2 if tier == 'quick' else 12):
+                ms = [rng.choice(sets) for _ in range(3)]
+                parts = []
+                for (o, B) in ms:
+                    parts += [';'.join(o) or '-', 'hex:-' if rng.random() < .15 else member(min(B, 131072))]
+                yield Case(f'mmtriple-{f}', ['mmn %s %d %s %s' % (f, rng.choice([7, 512, 10240]), rng.choice(['exact', 'all']), ' '.join(parts))])
         # 4b. option borders that are open findings (matched against known_findings.json)
         for lv in (28, 31):
             yield Case(f'kf-zstd-long{lv}', ['rt zstd zstd:long=%d %s all -/1 10240 %s' % (lv, rng.choice(['hex:41', 'gen:text:3000:7', 'gen:rnd:70000:3']), rng.choice(['exact', 'all']))])
@@ -324,9 +371,10 @@ class Flt(Engine):
             if o.startswith('!'):
                 return 'crash or sanitizer abort %s: %s' % (tag, o)
             f = dict(x.split('=', 1) for x in o.split(' ') if '=' in x)
-            if w[-1] == 'allx' or (w[-1] == 'all' and f.get('psig') == '1'):
+            md = w[3] if w[0] == 'mmn' else w[-1]
+            if md == 'allx' or (md == 'all' and f.get('psig') == '1'):
                 continue      # documented exception: the payload itself is claimed by a read bidder
-            wk = ('w',) if w[0] == 'rt' else ('wa', 'wb')
+            wk = ('w',) if w[0] in ('rt', 'mmn') else ('wa', 'wb')
             for k in wk:
                 if f.get(k) != 'ok':
                     return 'write side failed %s: %s=%s' % (tag, k, f.get(k))
@@ -367,9 +415,11 @@ class Flt(Engine):
                 for f in w[1].split(','):
                     st['filters'][f] = st['filters'].get(f, 0) + 1
                 st['depth'][len(w[1].split(','))] = st['depth'].get(len(w[1].split(',')), 0) + 1
-                st['modes'][w[-1]] = st['modes'].get(w[-1], 0) + 1
-                st['read_blocks'][w[-2]] = st['read_blocks'].get(w[-2], 0) + 1
-                for opt in (w[2].split(';') if w[2] != '-' else []):
+                md, rbk = (w[3], w[2]) if w[0] == 'mmn' else (w[-1], w[-2])
+                st['modes'][md] = st['modes'].get(md, 0) + 1
+                st['read_blocks'][rbk] = st['read_blocks'].get(rbk, 0) + 1
+                optl = ';'.join(x for x in (w[4::2] if w[0] == 'mmn' else [w[2]]) if x != '-')
+                for opt in (optl.split(';') if optl else []):
                     k = opt.split('=')[0]
                     st['options_used'][k] = st['options_used'].get(k, 0) + 1
                 m = re.search(r' dec=(\d+):', o)
